@@ -54,7 +54,7 @@ def c14_jobs(tier, seed):
     # window in filler: number of prefix characters k, suffix units s
     rnd = random.Random(seed)
     if tier == "quick":
-        kranges = [(0, 6), (14, 18)]
+        kranges = [(0, 6), (7, 13), (14, 18)]      # every phase of the 16-unit stride and the wrap into the second stride
         sranges = [(0, 5)]
         extra_k = rnd.randrange(20, 40)
         kranges.append((extra_k, extra_k))
@@ -97,7 +97,7 @@ PROPS["C14"] = dict(
     bounds=lambda tier: ("(a) every buffer of length 0..=%d (0..=%d for the ASCII/UTF-16 functions) with all units symbolic, at %d start offsets; "
                          "(b) a window of 3-4 fully symbolic units after k whole filler characters (ASCII, 2-, 3-, 4-byte / BMP, surrogate pair, "
                          "space) and before s filler units (possibly a truncated character), k and s over the ranges listed per job "
-                         "(quick: k in 0..6, 14..18 and one seed-chosen value, s in 0..5; thorough: k in 0..44, s in 0..5, 12..20, 60..66); "
+                         "(quick: k in 0..18 and one seed-chosen value, s in 0..5; thorough: k in 0..44, s in 0..5, 12..20, 60..66); "
                          "(c) utf8_valid_up_to with 64..%d bytes before the window so that the built-in scalar validator runs past the SIMD threshold."
                          % ((5, 4, 2, 66) if tier == "quick" else (6, 5, 4, 124))),
     outside=["simdutf8 SIMD kernels (x86 intrinsics)", "simd-accel build", "buffers longer than the stated bounds",
@@ -255,6 +255,8 @@ def c02_jobs(tier, seed):
             # quick: the non-lead shard, the last (past-the-leads) shard and two seed-chosen lead shards
             mid = shards[1:-1] if shards[-1][1] == 0xFF and shards[-1][0] > shards[1][0] else shards[1:]
             pick = [shards[0], shards[-1]] + rnd.sample(mid, 2)
+            if enc in ("GBK", "gb18030") and shards[1] not in pick:
+                pick.append(shards[1])         # leads 0x81..: the four-byte forms and their pending_ascii machinery
         else:
             pick = shards
         n1 = 3
@@ -440,7 +442,7 @@ def c03_jobs(tier, seed):
         wsel = [0x3000, 0xFF00] if q else [0x0000, 0x2000, 0x3000, 0x4E00, 0x9C00, 0xE000, 0xFC00]
         for w in wsel:
             for before in nb:
-                for after in ((0, 1, 4, 5) if q else nb):
+                for after in ((0, 1, 2, 3, 4, 5) if q else nb):      # incl. U+00A5 / U+203E after (JIS0208 -> Roman transition)
                     if before == 0 and after == 0:
                         continue
                     s = (before + after) % 2
@@ -532,9 +534,11 @@ def c04_jobs(tier, seed):
                 for g in ("A", "B", "C"):
                     repl = (k + b) % 2
                     fa, fb = (0, 1) if (k + a) % 2 else (1, 0)
-                    add(enc, fa, fb, repl, 0, w, w + W, b, a, (k + b + a) % 2 if fb == 0 else 0, 0, g)
+                    ww = 0xF if (q and enc in ("GBK", "gb18030")) else W      # their encode lookups nest several tables
+                    add(enc, fa, fb, repl, 0, w, w + ww, b, a, (k + b + a) % 2 if fb == 0 else 0, 0, g)
         for g in ("A", "B", "C"):
             add(enc, 1, 1, 0, 0x20000, 0, 0xF, 1, 1, 0, 3, g)          # astral from UTF-16 after an ASCII prefix
+            add(enc, 0, 1, g == "B", 0x10000, 0xF600, 0xF60F, 5, 1, 0, 1, g)   # surrogate pair right after a non-ASCII (kanji) character
     return jl
 
 
@@ -546,7 +550,7 @@ PROPS["C04"] = dict(
                  "upwards, in the same or the other source form (UTF-8 vs UTF-16), slice or Vec sink. Bytes, Unmappable reports (positions when the source "
                  "form is the same), had_unmappables and has_pending_state() must be equal. Only real code on both sides. z3 decides every branch and "
                  "assertion per path."),
-    bounds=lambda tier: ("texts of up to 8 characters: 0..5 ASCII + [neighbour] + one symbolic character in a %d-wide window + [neighbour]; windows: %s; regimes A = two cuts "
+    bounds=lambda tier: ("texts of up to 8 characters: 0..5 ASCII + [neighbour] + one symbolic character in a %d-wide window (quick: 16-wide for GBK/gb18030) + [neighbour]; windows: %s; regimes A = two cuts "
                          "+ optional empty final call with a large sink, B = one cut and symbolic per-call capacities min..min+2 (quick: two calls, thorough: three), C = two cuts + empty "
                          "final call at the fixed minimum; source forms of the two runs equal and different; with/without replacement; slice and Vec sinks"
                          % ((64, "2-5 per CJK encoder around its range-test constants, the Latin1 range and an astral window for the single-byte family (4 encodings)")
@@ -579,7 +583,8 @@ def c12_jobs(tier, seed):
         nbs = [(0, 0), (1, 1), (1, 4), (4, 1), (2, 2), (9, 5), (5, 9), (6, 1)] if enc == "ISO-2022-JP" else [(0, 0), (1, 4), (4, 1), (5, 1)]
         for k, w in enumerate(ws):
             for j, (b, a) in enumerate(nbs if not q else nbs[:(5 if enc == "ISO-2022-JP" else 2)]):
-                add(enc, (k + j) % 2, 0, w, w + W, b, a, (k + j) % 2 if (k + j) % 2 == 0 else 0, 14, 16 if j % 2 == 0 else 14)
+                ww = 0xF if (q and enc in ("GBK", "gb18030")) else W
+                add(enc, (k + j) % 2, 0, w, w + ww, b, a, (k + j) % 2 if (k + j) % 2 == 0 else 0, 14, 16 if j % 2 == 0 else 14)
         add(enc, 1, 0x10000, 0, 0xFF, 1, 1, 0, 14, 15)
         add(enc, 0, 0x20000, 0, 0xFF, 4, 0, 1, 14, 14)
     for i in ([E["windows-1252"], E["x-user-defined"], E["UTF-8"], E["UTF-16BE"], E["replacement"], rnd.choice(SINGLE)] if q else
@@ -599,7 +604,7 @@ PROPS["C12"] = dict(
                  "dangling lead), and has_pending_state() must equal what a ten-line escape scanner derives from the emitted bytes. After the final call the "
                  "encoder must be back in the ASCII state and decoding the complete output must give the input with unmappable characters as their numeric "
                  "character references, modulo the Standard's documented folding set (written out in the harness). z3 decides every branch and assertion."),
-    bounds=lambda tier: ("three-character texts with one symbolic character in a %d-wide window; windows per encoder: those containing the folding set (U+00A5, U+203E, "
+    bounds=lambda tier: ("three-character texts with one symbolic character in a %d-wide window (quick: 16-wide for GBK/gb18030); windows per encoder: those containing the folding set (U+00A5, U+203E, "
                          "U+2212, half-width katakana, the 18 GB18030-2022 code points) and hanzi/kana/hangul samples%s; one symbolic cut; capacities 14..16; "
                          "single-byte, x-user-defined and UTF-8 output encodings: the whole BMP" % ((256, "") if tier == "quick" else (1024, " plus every other 1024-window of the BMP"))),
     outside=["texts with more than one symbolic character", "the without-replacement methods (covered for bytes by C03/C04)"],
@@ -649,6 +654,10 @@ def enc_shapes(tier, seed):
             for (b, a) in nbs:
                 out.append((enc, 0, w, w + W, b, a, 1))
         out.append((enc, 0x20000, 0, 0xF, 1, 1, 3))
+    # the length ladder of numeric character references: code points around 10^3, 10^4, 10^5, 10^6
+    for enc in ("windows-1252", "Shift_JIS", "ISO-2022-JP", "Big5", "EUC-KR"):
+        for (base, lo) in ((0, 0x03E0), (0, 0x2708), (0x10000, 0x8698), (0xF0000, 0x4238)):
+            out.append((enc, base, lo, lo + 0xF, 1, 1, 0))
     return out
 
 
@@ -771,8 +780,14 @@ def c07_jobs(tier, seed):
     for enc in (fam if q else ENC_NAMES):
         for which in range(7):
             for (pre, bom) in ([(0, 0), (0, 2)] if which < 3 else [(0, 0)]):
-                jl.append(J("se_h_c07_overflow", {0: E[enc], 1: which, 7: pre, 8: bom},
-                            label="%s query %d on symbolic 64-bit lengths a<=b, bom=%d" % (enc, which, bom), need=[9999], weight=5, time_budget=600))
+                # z3 gets 15 s per query; arithmetic it cannot finish goes to cvc5 --solve-bv-as-int=sum (solver.py)
+                jl.append(J("se_h_c07_overflow", {0: E[enc], 1: which, 7: pre, 8: bom, 9: 0},
+                            label="%s query %d on unrestricted symbolic 64-bit lengths a<=b, bom=%d" % (enc, which, bom), need=[9999], weight=5, time_budget=900,
+                            solver_timeout_ms=15000))
+                if which in (0, 3):
+                    jl.append(J("se_h_c07_overflow", {0: E[enc], 1: which, 7: pre, 8: bom, 9: 1},
+                                label="%s query %d below 2^40: must not give up, bom=%d" % (enc, which, bom), need=[9999, 51], weight=5, time_budget=900,
+                                solver_timeout_ms=15000))
     return jl
 
 
@@ -785,11 +800,252 @@ PROPS["C07"] = dict(
                  "the caller's U+FFFD per error is counted). Encoder: after a neighbour character that sets the ISO-2022-JP state, q = max_buffer_length_from_* (units) "
                  "and the symbolic character plus a neighbour are encoded into exactly q bytes: never OutputFull (if_no_unmappables: whenever had_unmappables is "
                  "false). Overflow clause: each of the seven queries is executed on two fully symbolic 64-bit lengths a <= b and must return None or values that "
-                 "did not wrap (monotone, and not below half the length). z3 decides every branch and assertion."),
+                 "did not wrap: f(b) = Some(y) implies f(a) = Some(x) with x <= y (a wrapped sum or product is not monotone), and below 2^40 no query may give up. "
+                 "Queries whose 64-bit multiplications z3 cannot decide within 15 s are decided by cvc5 with its integer encoding of bit-vectors. z3 decides every branch and assertion."),
     bounds=lambda tier: ("decoder prefixes of <=2 symbolic bytes for the multi-byte encodings (<=3 otherwise), n <= %d further symbolic bytes, all four query/convert pairings%s; "
                          "encoder: one symbolic character in a window between two neighbours, both source forms, both query kinds; overflow: lengths are unrestricted "
                          "64-bit values, %s" % ((2, " (two per shard in the quick tier)", "13 encoding families") if tier == "quick" else (3, "", "all 40 encodings"))),
     outside=["prefixes longer than the bounds (the argument for sufficiency is that no decoder keeps more than 3 pending bytes, ISO-2022-JP 5 with its escape prefixes)",
              "real buffers near usize::MAX (only the queries are evaluated there)"],
     assumptions=ENGINE_ASSUMPTIONS + ["'no unmappable' is expressed as: the replacing call reported had_unmappables == false"],
+)
+
+
+# ----------------------------------------------------------------------------------------------- C16
+def c16_jobs(tier, seed):
+    jl = [J("se_h_c16_scalar", {}, label="is_char_bidi on every scalar value and is_utf16_code_unit_bidi on every code unit", need=[9999, 20, 21], weight=5)]
+    q = tier == "quick"
+    rnd = random.Random(seed)
+    KIND = ("utf8 (potentially invalid)", "str", "utf16")
+    if q:
+        kr = [(0, 3), (14, 18), (rnd.randrange(19, 44),) * 2]
+        sr = [(0, 2)]
+    else:
+        kr = [(0, 6), (7, 13), (14, 20), (21, 27), (28, 34), (35, 41), (42, 48)]
+        sr = [(0, 3), (14, 18)]
+    for kind in (0, 1, 2):
+        for cl in (0, 1, 2, 3):
+            w = (2 if kind == 2 else 3) + (0 if q else 1)
+            if q and kind == 0:
+                # a 4-byte window right after 0..3 filler characters: the only way to have exactly four bytes left
+                jl.append(J("se_h_c16_window", {0: 0, 1: cl, 2: 4, 3: 0, 4: 3, 5: 0, 6: 0, 7: 1},
+                            label="%s window=4 filler=%d k=0..3 s=0" % (KIND[0], cl), need=[9999], weight=60, time_budget=900))
+            for (k0, k1) in kr:
+                if cl == 3 and k0 > 30:
+                    continue
+                for (s0, s1) in sr:
+                    for off in ((1,) if q else (0, 3)):
+                        jl.append(J("se_h_c16_window", {0: kind, 1: cl, 2: w, 3: k0, 4: k1, 5: s0, 6: s1, 7: off},
+                                    label="%s window=%d filler=%d k=%d..%d s=%d..%d off=%d" % (KIND[kind], w, cl, k0, k1, s0, s1, off), need=[9999],
+                                    weight=(k1 - k0 + 1) * (s1 - s0 + 1) * (4 if kind == 0 else 2), time_budget=900 if q else 3000))
+    return jl
+
+
+PROPS["C16"] = dict(
+    cfgs=["verif_c16"], level="model_checking", jobs=c16_jobs, need_global=[20, 21, 22, 23],
+    explanation=("is_char_bidi and is_utf16_code_unit_bidi are executed symbolically on a fully symbolic scalar value / code unit and asserted equal to the documented "
+                 "right-to-left block list. is_ascii, is_basic_latin, is_utf8_latin1, is_str_latin1, is_utf16_latin1, is_utf8_bidi, is_str_bidi, is_utf16_bidi and the three "
+                 "check_*_for_latin1_and_bidi functions are executed on buffers consisting of k filler characters (ASCII, Latin1, non-Latin1 BMP, astral), a window of "
+                 "fully symbolic units and s more filler characters, and asserted equal to the per-character definitions computed by a naive scan (is_utf8_bidi also true "
+                 "for any invalid UTF-8; the combined checks equal to the combination of the separate ones). z3 decides every branch and assertion."),
+    bounds=lambda tier: ("all 1,112,064 scalar values and all 65,536 code units for the two predicates; buffers: window of %s symbolic units, k filler characters before "
+                         "(%s), s after (%s), four filler classes, three buffer kinds (potentially invalid UTF-8, &str, UTF-16)"
+                         % (("3 (UTF-16: 2)", "k in 0..3, 14..18 and one seed-chosen value in 19..43", "0..2") if tier == "quick"
+                            else ("4 (UTF-16: 3)", "k in 0..48", "0..3 and 14..18"))),
+    outside=["simd-accel build", "more than one symbolic window per buffer", "buffers longer than the bounds"],
+    assumptions=ENGINE_ASSUMPTIONS + ["the right-to-left block list is the one in the documentation of mem::is_char_bidi", "&str arguments are assumed valid UTF-8 (their type's invariant)"],
+)
+
+
+# ----------------------------------------------------------------------------------------------- C15
+F8 = ["convert_utf8_to_utf16", "convert_str_to_utf16", "convert_utf8_to_utf16_without_replacement", "convert_latin1_to_utf16", "convert_latin1_to_utf8",
+      "convert_latin1_to_str", "convert_latin1_to_utf8_partial", "convert_latin1_to_str_partial", "convert_utf8_to_latin1_lossy", "decode_latin1",
+      "encode_latin1_lossy", "copy_ascii_to_ascii", "copy_ascii_to_basic_latin"]
+F16 = ["convert_utf16_to_utf8", "convert_utf16_to_str", "convert_utf16_to_utf8_partial", "convert_utf16_to_str_partial", "convert_utf16_to_latin1_lossy",
+       "ensure_utf16_validity", "copy_basic_latin_to_ascii"]
+
+
+def c15_jobs(tier, seed):
+    jl = []
+    q = tier == "quick"
+    rnd = random.Random(seed)
+    pres = [0, 1, 15, 16, 17, rnd.randrange(18, 40)] if q else [0, 1, 2, 7, 8, 15, 16, 17, 24, 31, 32, 33, 40]
+    for f, name in enumerate(F8):
+        partial = "partial" in name
+        for pre in pres:
+            nmax = 3 if (q or partial) else 4
+            if partial and pre > 17 and q:
+                continue
+            for delta in ((0,) if (q or partial) else (0, 1)):
+                jl.append(J("se_h_c15_from8", {0: f, 1: nmax, 2: pre, 3: delta}, label="%s: %d ASCII + n<=%d symbolic bytes, dst = sufficient+%d%s" % (
+                    name, pre, nmax, delta, " (partial: every dst length 0..=sufficient+1)" if partial else ""), need=[9999],
+                    weight=(40 if partial else 10) + pre, time_budget=900 if q else 3000))
+    for f, name in enumerate(F16):
+        partial = "partial" in name
+        for pre in pres:
+            nmax = 3
+            if partial and pre > 17 and q:
+                continue
+            for delta in ((0,) if (q or partial) else (0, 1)):
+                jl.append(J("se_h_c15_from16", {0: f, 1: nmax, 2: pre, 3: delta}, label="%s: %d ASCII + n<=%d symbolic units, dst = sufficient+%d%s" % (
+                    name, pre, nmax, delta, " (partial: every dst length 0..=sufficient+1)" if partial else ""), need=[9999],
+                    weight=(40 if partial else 10) + pre, time_budget=900 if q else 3000))
+    return jl
+
+
+PROPS["C15"] = dict(
+    cfgs=["verif_c15"], level="model_checking", jobs=c15_jobs, need_global=[20, 21, 22, 24, 25],
+    explanation=("Each of the 20 public conversions of encoding_rs::mem (convert_*, copy_*, ensure_utf16_validity, decode_latin1, encode_latin1_lossy) is executed symbolically "
+                 "on a source consisting of an ASCII filler of concrete length (chosen around the 16-unit stride) followed by n fully symbolic units, into a destination of the "
+                 "documented sufficient size (for the *_partial forms: every destination length from 0 to sufficient+1, symbolic). The result is asserted equal to naive "
+                 "reference conversions: one U+FFFD per maximal ill-formed UTF-8 subpart / unpaired surrogate, None exactly for invalid input, copy_* stop at the first "
+                 "non-ASCII unit, Cow::Borrowed exactly for ASCII input; *_partial: read/written consistent, read on a character boundary (never inside a pair), the next "
+                 "character really does not fit, the unit just beyond the destination untouched; *_to_str*: the whole &mut str valid afterwards. Documented preconditions "
+                 "(valid &str, Latin1-only input for the lossy Latin1 forms) are assumed exactly as documented. z3 decides every branch and assertion."),
+    bounds=lambda tier: ("n <= 3 fully symbolic units%s after an ASCII filler of %s units; destination exactly sufficient%s; partial forms: all destination lengths"
+                         % (("", "0, 1, 15, 16, 17 and one seed-chosen length in 18..39", "") if tier == "quick" else (" (4 for the non-partial UTF-8 sources)", "0..40 (13 lengths around the strides)", " and sufficient+1"))),
+    outside=["simd-accel build (where the 'unmodified beyond written' guarantee is known to differ: DESIGN.md F5, not reachable by this engine)", "sources with more than n symbolic units",
+             "destinations larger than sufficient+1"],
+    assumptions=ENGINE_ASSUMPTIONS + ["documented preconditions assumed: &str valid UTF-8; convert_utf8_to_latin1_lossy / convert_utf16_to_latin1_lossy / encode_latin1_lossy only on input in U+0000..U+00FF",
+                                      "lossy UTF-8 conversion = one U+FFFD per maximal ill-formed subpart (WHATWG UTF-8 decoder practice)"],
+)
+
+
+# ----------------------------------------------------------------------------------------------- C13
+def c13_jobs(tier, seed):
+    q = tier == "quick"
+    rnd = random.Random(seed)
+    jl = [J("se_h_c13_short", {1: 3 if q else 4}, label="every byte string of length <= %d" % (3 if q else 4), need=[9999, 20, 21], weight=100, time_budget=900 if q else 6000),
+          J("se_h_c13_names", {}, label="name() of all 40 encodings resolves to itself; longest label + 2 symbolic bytes (cut-off)", need=[9999, 20, 21], weight=5)]
+    MODE = ("substituted", "deleted", "inserted")
+    for k in range(228):
+        for mode in (0, 1, 2):
+            jl.append(J("se_h_c13_near", {0: k, 1: mode}, label="label #%d with one symbolic position %s (symbolic byte, all 256 values)" % (k, MODE[mode]), need=[9999], weight=2))
+    for k in (sorted(rnd.sample(range(228), 40)) if q else range(228)):
+        jl.append(J("se_h_c13_pad", {0: k, 2: 1, 3: 1}, label="label #%d with 0..1 symbolic padding bytes (all 256 values) before and after" % k, need=[9999], weight=20,
+                    time_budget=900 if q else 3000))
+    # two arbitrary padding bytes on one side (e.g. genuine whitespace followed by a non-whitespace look-alike such as VT)
+    for k in (sorted(rnd.sample(range(228), 16)) if q else range(228)):
+        jl.append(J("se_h_c13_pad", {0: k, 2: 2, 3: 0}, label="label #%d with 0..2 symbolic padding bytes before" % k, need=[9999], weight=30, time_budget=900 if q else 3000))
+        jl.append(J("se_h_c13_pad", {0: k, 2: 0, 3: 2}, label="label #%d with 0..2 symbolic padding bytes after" % k, need=[9999], weight=30, time_budget=900 if q else 3000))
+    return jl
+
+
+PROPS["C13"] = dict(
+    cfgs=["verif_c13"], level="model_checking", jobs=c13_jobs, need_global=[20, 21],
+    explanation=("Encoding::for_label and for_label_no_replacement are executed symbolically on byte strings with symbolic bytes and their results asserted equal to the "
+                 "Standard's 'get an encoding': strip leading/trailing TAB, LF, FF, CR, SPACE, ASCII-lowercase, then a linear scan over the 228 label/encoding pairs of the "
+                 "repository's generated test list (independent of the sorted tables and the binary search under test). Shapes: every byte string up to length N; every "
+                 "label with one symbolic position substituted (covers every single case flip), deleted or inserted with a symbolic byte; labels with symbolic padding bytes "
+                 "drawn from all 256 values; the longest label plus two symbolic bytes (the 19-byte cut-off); name() round trip for all 40 encodings. z3 decides every branch "
+                 "and assertion."),
+    bounds=lambda tier: ("all byte strings of length <= %d; all 228 labels x {substitute, delete, insert} x every position x all 256 byte values; %s labels with 0..1 arbitrary "
+                         "padding bytes on each side and %s with 0..2 arbitrary padding bytes on one side; longest label + 2 arbitrary bytes" % ((3, "40 seed-chosen", "16 seed-chosen") if tier == "quick" else (4, "all 228", "all 228"))),
+    outside=["more than one edit per label", "padding longer than one byte per side combined with arbitrary padding bytes", "arbitrary strings longer than the bound"],
+    assumptions=ENGINE_ASSUMPTIONS + ["the label list of src/test_labels_names.rs (generated upstream from encodings.json) is the Standard's label table"],
+)
+
+
+# ----------------------------------------------------------------------------------------------- C20
+def c20_jobs(tier, seed):
+    q = tier == "quick"
+    jl = [J("se_h_c20_identity", {}, label="output_encoding idempotent / used by new_encoder and encode; ==, name() identify exactly 40 instances", need=[9999], weight=5)]
+    not_ascii = {"UTF-16BE", "UTF-16LE", "ISO-2022-JP", "replacement"}
+    utf8_out = {"UTF-8", "UTF-16BE", "UTF-16LE", "replacement"}
+    single = set(ENC_NAMES[i] for i in SINGLE) | {"x-user-defined"}
+    two_byte_win = {"Big5": 0x4E00, "EUC-JP": 0x3040, "EUC-KR": 0xAC00, "GBK": 0x4E00, "gb18030": 0x4E00, "Shift_JIS": 0x3040, "ISO-2022-JP": 0x3040}
+    unmappable_win = {"gb18030": 0xE5C0, "GBK": 0x0080, "Big5": 0x0080, "EUC-JP": 0x0080, "EUC-KR": 0x0080, "Shift_JIS": 0x0100, "ISO-2022-JP": 0x0080}
+    for i, enc in enumerate(ENC_NAMES):
+        # 0: ASCII bytes decode to themselves
+        jl.append(J("se_h_c20_pred", {0: i, 1: 0}, label="%s: bytes 00-7F decode to U+0000-U+007F (is_ascii_compatible=%s)" % (enc, enc not in not_ascii),
+                    need=[], expect_fail_if_reached={71: [41]}, weight=2))
+        # 1: ASCII characters encode to the same bytes (in the output encoding)
+        out_not_ascii = enc == "ISO-2022-JP"
+        jl.append(J("se_h_c20_pred", {0: i, 1: 1}, label="%s: U+0000-U+007F encode to the same single bytes" % enc, need=[], expect_fail_if_reached={71: [43]}, weight=2))
+        # 2: two bytes decode to two units
+        sb = enc in single
+        jl.append(J("se_h_c20_pred", {0: i, 1: 2}, label="%s: every 2-byte string decodes to 2 UTF-16 units (is_single_byte=%s)" % (enc, sb), need=[9999],
+                    expect_fail_if_reached={71: [45]}, weight=20, time_budget=900))
+        # 3: mappable characters encode to one byte
+        if sb:
+            wins = [(0, 0x0000, 0xFFFF)] if not q else [(0, 0x0000, 0x07FF), (0, 0x2000, 0x27FF)]
+            for (b, lo, hi) in wins:
+                jl.append(J("se_h_c20_pred", {0: i, 1: 3, 3: b, 4: lo, 5: hi}, label="%s: every mappable character in U+%04X..U+%04X encodes to one byte" % (enc, b + lo, b + hi), need=[9999], weight=8,
+                            expect_fail_if_reached={71: [47]}, small_index_fork=64))
+        else:
+            w = two_byte_win.get(enc, 0x0080)
+            jl.append(J("se_h_c20_pred", {0: i, 1: 3, 3: 0, 4: w, 5: w + 0x3F}, label="%s: some mappable character needs more than one byte (witness required)" % enc, need=[9999],
+                        expect_fail_if_reached={71: [47]}, weight=8, small_index_fork=64))
+        # 4: nothing is unmappable
+        if enc in utf8_out:
+            for (b, lo, hi) in ([(0, 0, 0xFFFF), (0x10000, 0, 0xFFFF), (0x100000, 0, 0xFFFF)] if not q else [(0, 0, 0xFFFF), (0x100000, 0xF000, 0xFFFF)]):
+                jl.append(J("se_h_c20_pred", {0: i, 1: 4, 3: b, 4: lo, 5: hi}, label="%s: no scalar value in U+%04X..U+%04X is unmappable (can_encode_everything)" % (enc, b + lo, b + hi), need=[9999], weight=4,
+                            expect_fail_if_reached={71: [49]} if (b, lo) == (0, 0) else {}))
+        else:
+            w = unmappable_win.get(enc, 0x4E00)
+            jl.append(J("se_h_c20_pred", {0: i, 1: 4, 3: 0, 4: w, 5: w + 0x3F}, label="%s: some scalar value is unmappable (witness required)" % enc, need=[9999], expect_fail_if_reached={71: [49]}, weight=6,
+                        small_index_fork=64))
+    return jl
+
+
+PROPS["C20"] = dict(
+    cfgs=["verif_c20"], level="model_checking", jobs=c20_jobs,
+    explanation=("For each of the 40 encodings the universal statement behind each metadata predicate is asserted on the real converters executed symbolically: bytes 00-7F decode to "
+                 "themselves and encode back (is_ascii_compatible), every 2-byte string decodes to exactly 2 UTF-16 units and every mappable character encodes to one byte "
+                 "(is_single_byte), no scalar value is unmappable (can_encode_everything). Where the predicate is documented true the statement must hold for every value of the "
+                 "symbolic input (z3: unsat on every path); where the predicate's value AT RUN TIME is false the check REQUIRES a counterexample - a solver witness that is replayed against "
+                 "the native build - so a flag flipped in either direction is caught (flipped to true: the universal statement is refuted; flipped to false: "
+                 "no witness exists). output_encoding() idempotence, its use by new_encoder() and encode(), and ==/name() identity over "
+                 "the 40 instances are checked concretely."),
+    bounds=lambda tier: ("all 128 ASCII bytes/characters; all 65,536 two-byte strings per encoding; encode statements over %s; ∃-side witnesses searched in one 64-wide window per encoding"
+                         % ("U+0000..U+07FF and U+2000..U+27FF for the single-byte encodings, the BMP and the last 4096 code points for the UTF-8 output encodings" if tier == "quick"
+                            else "the whole BMP for the single-byte encodings, planes 0, 1 and 16 for the UTF-8 output encodings")),
+    outside=["byte strings longer than 2 (longer strings of a single-byte decoder are covered by C01/C02)", "Hash (derived from the same pointer identity as ==; not executed)"],
+    assumptions=ENGINE_ASSUMPTIONS + ["errors count as one U+FFFD code unit in the 'as many units as bytes' statement (replacing decode)"],
+)
+
+
+# ----------------------------------------------------------------------------------------------- C17
+ALT_FEATURES = {"fast": "std,fast-legacy-encode",
+                "lessslow": "std,less-slow-kanji-encode,less-slow-big5-hanzi-encode,less-slow-gb-hanzi-encode"}
+
+
+def c17_jobs(tier, seed):
+    """the C03 character jobs of the seven encoders whose lookup helpers are cfg-switched, executed on the IR of the
+    alternative feature sets: each build is compared with the same reference on the same windows, hence with each other
+    and with the default build (C03)"""
+    q = tier == "quick"
+    rnd = random.Random(seed)
+    base = [j for j in c03_jobs(tier, seed) if j["harness"] == "se_h_c03_char" and ENC_NAMES[j["params"][0]] in CJK_ENC
+            and j["params"][6] == 0 and j["params"][7] == 0]
+    jl = []
+    for key in ALT_FEATURES:
+        sel = base
+        if q:
+            # quick: the windows that contain hanzi / kanji / hangul / hanja (where the alternative tables are used) + a seeded sample
+            hot = [j for j in base if j["params"][3] == 0 and j["params"][4] in (0x3000, 0x4E00, 0x5000, 0x9C00, 0xAC00, 0xF800, 0xFC00)]
+            rest = [j for j in base if j not in hot]
+            sel = hot + rnd.sample(rest, min(len(rest), 40))
+        for j in sel:
+            k = dict(j)
+            k["ir"] = key
+            k["label"] = "[%s] %s" % (ALT_FEATURES[key], j["label"])
+            jl.append(k)
+    return jl
+
+
+PROPS["C17"] = dict(
+    cfgs=["verif_c03"], level="model_checking", jobs=c17_jobs, need_global=[20, 21],
+    irs={k: ("release", v) for k, v in ALT_FEATURES.items()},
+    explanation=("Two further whole-program IR modules are built from the same scratch copy with the feature sets 'fast-legacy-encode' and 'less-slow-kanji-encode, "
+                 "less-slow-big5-hanzi-encode, less-slow-gb-hanzi-encode', which swap in separate tables and lookup functions for the legacy CJK encoders. The C03 character "
+                 "harness (real Encoder through the public API, from UTF-8 and UTF-16, with and without replacement, one symbolic character per window) is executed on both "
+                 "modules against the same transcribed reference encoder as the default build in C03: every build is decided equal to the same reference on the same windows, hence "
+                 "the builds are equal to one another there. z3 decides every branch and assertion per path."),
+    bounds=lambda tier: ("the seven CJK encoders (Big5, EUC-JP, EUC-KR, GBK, gb18030, Shift_JIS, ISO-2022-JP) x the character windows of C03's %s tier%s, both alternative feature sets"
+                         % (tier, " restricted to the hanzi/kanji/hangul/hanja/compatibility windows plus 40 seed-chosen jobs per feature set" if tier == "quick" else "")),
+    outside=["simd-accel (+std) on a nightly compiler: its kernels are portable_simd vector code, for which llsym has no semantics - not reachable by this technique in this sandbox",
+             "SIMD-validator path vs built-in scalar path of UTF-8 validation: only the scalar side is executed (C14); simdutf8's kernels are x86 intrinsics",
+             "decoders and mem functions: no code of theirs is cfg-switched by the legacy-encode features"],
+    assumptions=ENGINE_ASSUMPTIONS + ["equality between builds is established through equality of each build with the same reference encoder on the same inputs"],
 )
